@@ -65,6 +65,19 @@ pub fn generate(property: &str, seed: u64, tier: Tier) -> Plan {
         t["target"] = json!(true);
         steps.push(t);
     }
+    // force merge (replace-all of a folder log + vault rewrite) as a crash
+    // target: remember the folder log early, crash the replacement later.
+    // Independent stream: the rest of a seed's plan is unchanged.
+    {
+        let mut fr = Rng::new(seed).fork("crash.force_merge");
+        if fr.chance(1, 3) && steps.len() >= 3 {
+            let fslot = *fr.pick(&[0u64, 0, 4]);
+            let first_target = steps.iter().position(|s| jbool(s, "target")).unwrap_or(steps.len());
+            let at = 1 + fr.below(first_target.max(2) as u64 - 1) as usize;
+            steps.insert(at.min(first_target), json!({"op":"fsnap","fslot":fslot}));
+            steps.push(json!({"op":"frevert","fslot":fslot,"target":true}));
+        }
+    }
     Plan {
         family: "crash".into(),
         property: property.into(),
@@ -101,6 +114,10 @@ pub struct OpJob {
     pub crash_at: u64,
     pub tear: u64,
     pub out: PathBuf,
+    /// remembered folder logs (fsnap) so that a force merge (frevert) can be a
+    /// crash target: (folder slot, folder id, hex of the encoded records, model)
+    #[serde(default)]
+    pub fsnaps: Vec<(u64, String, Vec<String>, FolderM)>,
 }
 
 /// Child entry point: run one operation with the disk seam armed.
@@ -116,6 +133,18 @@ pub async fn run_op_job(job: OpJob) {
     let open_trace = interpose::disk_take_trace();
     interpose::disk_unwatch();
     dev.model = job.model.clone();
+    for (fslot, fid, recs, fm) in &job.fsnaps {
+        let Ok(fid) = fid.parse::<sos_core::VaultId>() else { continue };
+        let mut out = vec![];
+        for h in recs {
+            if let Ok(b) = hex::decode(h) {
+                if let Ok(r) = sos_core::decode::<sos_core::events::EventRecord>(&b).await {
+                    out.push(r);
+                }
+            }
+        }
+        dev.fsnaps.insert(*fslot, (fid, out, fm.clone()));
+    }
     // identical randomness and clock in the twin and in every crash run
     interpose::reseed_main(job.seed ^ 0xC4A5_0000);
     interpose::clock_enable(job.clock_ns, 1_000_003);
@@ -215,11 +244,22 @@ pub async fn execute(plan: Plan, dir: &Path) -> RunOutcome {
         let opn = jstr(s, "op");
         if !jbool(s, "target") {
             let c = dev.exec(s, &mut rec, 0).await;
+            dev.invalidate_fsnaps(&opn, s, &c);
             rec.step(idx, &opn, c.split(':').next().unwrap_or(""), backend);
             continue;
         }
         // ---- snapshot of the state before the target operation
         let before_logs = no::device_logs(&dev).await.unwrap_or_default();
+        let mut fsnaps_ser: Vec<(u64, String, Vec<String>, FolderM)> = vec![];
+        for (fslot, (fid, recs, fm)) in dev.fsnaps.iter() {
+            let mut hexes = vec![];
+            for r in recs {
+                if let Ok(b) = sos_core::encode(r).await {
+                    hexes.push(hex::encode(b));
+                }
+            }
+            fsnaps_ser.push((*fslot, fid.to_string(), hexes, fm.clone()));
+        }
         let model = dev.model.clone();
         let clock_ns = interpose::clock_now();
         let pw = {
@@ -250,6 +290,7 @@ pub async fn execute(plan: Plan, dir: &Path) -> RunOutcome {
             crash_at: 0,
             tear: 0,
             out: out.clone(),
+            fsnaps: fsnaps_ser.clone(),
         };
         let code = spawn_job(&job, &dir.join(format!("job{idx}.json")));
         let twin_rep: Option<OpReport> =
@@ -259,7 +300,8 @@ pub async fn execute(plan: Plan, dir: &Path) -> RunOutcome {
             rec.observe(&format!("twin failed: {code:?}"));
             rec.step(idx, &opn, "twin_failed", backend);
             let _ = dev.open().await;
-            let _ = dev.exec(s, &mut rec, 0).await;
+            let c = dev.exec(s, &mut rec, 0).await;
+            dev.invalidate_fsnaps(&opn, s, &c);
             continue;
         };
         let n = twin_rep.trace.len() as u64;
@@ -274,7 +316,8 @@ pub async fn execute(plan: Plan, dir: &Path) -> RunOutcome {
             // the operation is a no-op / error in this state: nothing to crash
             rec.step(idx, &opn, &format!("twin_{}", twin_rep.class.split(':').next().unwrap_or("")), backend);
             let _ = dev.open().await;
-            let _ = dev.exec(s, &mut rec, 0).await;
+            let c = dev.exec(s, &mut rec, 0).await;
+            dev.invalidate_fsnaps(&opn, s, &c);
             continue;
         }
         // ---- crash points
@@ -418,7 +461,8 @@ pub async fn execute(plan: Plan, dir: &Path) -> RunOutcome {
         if dev.open().await.is_err() {
             break;
         }
-        let _ = dev.exec(s, &mut rec, 0).await;
+        let c = dev.exec(s, &mut rec, 0).await;
+        dev.invalidate_fsnaps(&opn, s, &c);
     }
     rec.stats.count_n("cases", points_total);
     rec.stats.count_n("c13.crash_points", points_total);
@@ -439,5 +483,6 @@ fn clone_job(j: &OpJob) -> OpJob {
         crash_at: j.crash_at,
         tear: j.tear,
         out: j.out.clone(),
+        fsnaps: j.fsnaps.clone(),
     }
 }
